@@ -7,10 +7,12 @@ PROP = {
     "n_thorough": 60000,
     "harness_timeout": 2400,
     "trusted": [
+        "hook hsms/verif_export_runtime.go (build tag verif, add-only): the transport is handed the connection wrapped so that harness callbacks run around TCPUp / CommitSelected; used only by the held-commit scenarios, every other run uses the public API alone",
         "e2e rig harness/cmd/c08 (public API only, no hook): a real hsmsss connection over net.Pipe via WithDialer / WithListener, a raw-frame peer, a handler log; per frame the replies are fenced by a Linktest.req barrier (sequential recv goroutine + FIFO async sender)",
         "harness/cmd/c08/oracle.go: the E37 table re-stated in Go from the property text (the implementation-level oracle; no reference to the model)",
     ],
     "assumptions": [
+        "atomic action 'the TCP-up commit (NotConnected -> NotSelected) happens before the generation's first frame can be dispatched' and 'the Selected commit happens before the peer can hold Select.rsp': now EXERCISED by the held-commit runs (hook hsms/verif_export_runtime.go: the harness parks the transport inside TCPUp for 60 ms, resp. delays CommitSelected, while the peer's Select.req + data + barrier are already written in one burst; passive with/without pipelined data and with a second connection during the hold, active with simultaneous select); the exact differential runs on the outcome",
         "atomicity: one received frame = one step; CommitSelected / CommitSelectLost are synchronous on the recv goroutine; a control transaction closes in the step in which its response is routed (the waiter's deregistration runs on another goroutine shortly after: the harness fences it with an orphan-response probe and records only the probe that was answered)",
         "the supervisor does not move the logical state by itself while the link is up (T7 / linktest / Close aside, which the quiet link excludes): this is C05's theorem; before repo commit 737422e the e2e pass reproduced its violation with protocol-visible consequences (finding C08-deselect-undone, now fixed) and still recognises it by name",
         "quiet link: auto-linktest off and T3/T6/T7 at 120 s, so the only control transaction the library opens is the active side's Select.req; data transactions opened by local senders (C06) are outside this model",
